@@ -216,13 +216,26 @@ pub fn run(tier: Tier) -> i32 {
     let bigname = ("big9000".to_string(), big.clone());
     let hugename = ("huge70000".to_string(), huge_msg());
     let entry = &pool[2];
-    let bigs = vec![
+    let mut bigs = vec![
         mk_seq(&[&bigname]),
         mk_seq(&[small, &bigname, small]),
         mk_seq(&[&bigname, &bigname]),
         mk_seq(&[&hugename, entry, small]),
         mk_seq(&[small, &hugename, &bigname]),
     ];
+    // sizes between the classic boundaries, and long runs of messages in one stream
+    let mid: Vec<(String, Vec<u8>)> = [1000usize, 4090, 5000, 8180, 16300, 20000, 33000]
+        .iter()
+        .map(|n| (format!("mid{}", n), Msg { id: 11, op: Op::SearchEntry { dn: b"cn=mid".to_vec(), attrs: vec![(b"description".to_vec(), vec![vec![0x6d; *n]])] }, controls: None }.encode()))
+        .collect();
+    for m in &mid {
+        bigs.push(mk_seq(&[small, m, entry]));
+        bigs.push(mk_seq(&[m, m]));
+    }
+    for n in [5usize, 9, 17, 33, 65, 129, 300] {
+        let run: Vec<&(String, Vec<u8>)> = (0..n).map(|k| &pool[k % pool.len()]).collect();
+        bigs.push(mk_seq(&run));
+    }
     for s in &bigs {
         let l = s.bytes.len();
         judge(&rep, s, &[], &evals);
@@ -235,10 +248,27 @@ pub fn run(tier: Tier) -> i32 {
         marks.retain(|m| *m > 0 && *m < l);
         marks.sort();
         marks.dedup();
+        // every pair of marks for streams of a few messages; for long runs every single mark,
+        // a cut at every message boundary at once, and fixed-size reads
+        let pairs = s.bounds.len() <= 4;
         for (i, a) in marks.iter().enumerate() {
             judge(&rep, s, &[*a], &evals);
-            for b in &marks[i + 1..] {
-                judge(&rep, s, &[*a, *b], &evals);
+            if pairs {
+                for b in &marks[i + 1..] {
+                    judge(&rep, s, &[*a, *b], &evals);
+                }
+            }
+        }
+        if !pairs {
+            let at_bounds: Vec<usize> = s.bounds.iter().copied().filter(|b| *b > 0 && *b < l).collect();
+            judge(&rep, s, &at_bounds, &evals);
+            judge(&rep, s, &at_bounds.iter().map(|b| b - 1).filter(|b| *b > 0).collect::<Vec<_>>(), &evals);
+            judge(&rep, s, &at_bounds.iter().map(|b| b + 1).filter(|b| *b < l).collect::<Vec<_>>(), &evals);
+            for chunk in [7usize, 64, 100, 4096] {
+                judge(&rep, s, &(1..l).filter(|k| k % chunk == 0).collect::<Vec<_>>(), &evals);
+            }
+            if l <= 20_000 {
+                judge(&rep, s, &(1..l).collect::<Vec<_>>(), &evals);
             }
         }
         // 1 KiB reads, then byte-at-a-time over the first 40 bytes
